@@ -1,4 +1,5 @@
 import Proofs.Num.Coins
+import Proofs.Num.CoinsExt
 import Proofs.Num.BigDec
 /-!
 # C41 — Coin set arithmetic matches multiset arithmetic
@@ -63,6 +64,33 @@ theorem sub_never_negative (a b d : Coins) (h : sub a b = some d) : ∀ c ∈ d,
       simp [this] at hn
     omega
   · simp at h
+
+/-- **Uniqueness of the canonical form.**  A sorted, zero-free coin list is determined by its map
+reading, so the "same per-denomination amounts as a map" statements above pin the result *list*. -/
+theorem canonical_unique (a b : Coins) (ha : Sorted a) (hb : Sorted b)
+    (na : ∀ c ∈ a, c.amount ≠ 0) (nb : ∀ c ∈ b, c.amount ≠ 0)
+    (h : ∀ d, sumOf a d = sumOf b d) : a = b := canonical_ext a b ha hb na nb h
+
+/-- Addition of sorted sets is commutative as lists (not merely as maps). -/
+theorem add_comm (a b c c' : Coins) (ha : Sorted a) (hb : Sorted b)
+    (h : safeAdd a b = some c) (h' : safeAdd b a = some c') : c = c' := safeAdd_comm a b c c' ha hb h h'
+
+/-- … and associative whenever neither bracketing overflows. -/
+theorem add_assoc (a b c ab bc l r : Coins) (ha : Sorted a) (hb : Sorted b) (hc : Sorted c)
+    (h1 : safeAdd a b = some ab) (h2 : safeAdd ab c = some l)
+    (h3 : safeAdd b c = some bc) (h4 : safeAdd a bc = some r) : l = r :=
+  safeAdd_assoc a b c ab bc l r ha hb hc h1 h2 h3 h4
+
+/-- Subtraction undoes addition exactly: `(a + b) - b` is the list `a` itself for canonical `a`,
+and its negative flag reports exactly the negative entries `a` already had. -/
+theorem add_then_sub_is_identity (a b c d : Coins) (neg : Bool) (ha : Sorted a) (hb : Sorted b)
+    (na : ∀ x ∈ a, x.amount ≠ 0) (h : safeAdd a b = some c) (hs : safeSub c b = some (d, neg)) :
+    d = a ∧ (neg = true ↔ ∃ e, sumOf a e < 0) :=
+  ⟨add_sub_cancel a b c d neg ha hb na h hs, add_sub_cancel_flag a b c d neg ha hb h hs⟩
+
+/-- `IsAllGTE` is the pointwise order of the maps over the denominations listed in `b`. -/
+theorem isAllGTE_pointwise (a b : Coins) (ha : Sorted a) (hne : a ≠ []) (hbne : b ≠ []) :
+    isAllGTE a b = true ↔ ∀ cb ∈ b, cb.amount ≤ sumOf a cb.denom := isAllGTE_spec a b ha hne hbne
 
 /-- The binary-search lookup equals the map reading on sorted sets. -/
 theorem amountOf_spec (cs : Coins) (d : Denom) (hs : Sorted cs) : amountOf cs d = sumOf cs d :=
